@@ -59,6 +59,9 @@ func declMatrix() []declCase {
 	add("string format", "object Foo {\n  field s string {\n    format = \"email\"\n  }\n}\n")
 	add("map ext and rules", "object Foo {\n  field m map:string {\n    ext.singleForm = \"pair\"\n    rules.minPairs = 1\n    rules.maxPairs = 3\n  }\n}\n")
 	add("decimal and date ext", "object Foo {\n  field d decimal {\n    ext {\n    }\n  }\n  field t date {\n    ext {\n    }\n  }\n}\n")
+	// timestamp bounds (schema.proto TimestampField.Rules.minimum / maximum are google.protobuf.Timestamp): a rule kind of the schema language
+	add("timestamp rules minimum", "object Foo {\n  field t timestamp {\n    rules.minimum = \"2020-01-01T00:00:00Z\"\n  }\n}\n")
+	add("timestamp rules maximum exclusive", "object Foo {\n  field t timestamp {\n    rules.maximum = \"2030-01-01T00:00:00Z\"\n    rules.exclusiveMaximum = true\n  }\n}\n")
 	add("service", "service Foo {\n  basePath = \"/foo/v1\"\n  method Bar {\n    httpMethod = \"GET\"\n    httpPath = \"/bar/:id\"\n    request {\n      field id string\n    }\n    response {\n      field name string\n    }\n  }\n}\n")
 	for _, m := range []string{"GET", "POST", "PUT", "PATCH", "DELETE"} {
 		add("service method "+m, fmt.Sprintf("service Foo {\n  basePath = \"/foo/v1\"\n  method Bar {\n    httpMethod = %q\n    httpPath = \"/bar\"\n    request {\n    }\n    response {\n      field name string\n    }\n  }\n}\n", m))
@@ -87,6 +90,32 @@ func declMatrix() []declCase {
 		mainFile:          "package foo.v1\n\nimport baz.v1\n\nobject Foo {\n  field bar object:baz.Bar\n}\n",
 		"baz/v1/types.j5s": "package baz.v1\n\nobject Bar {\n  field x string\n}\n",
 	}})
+	// import matrix (README "Packages and Imports": an import brings the package into scope "by either the package
+	// name ('bar' not 'v1') or by the alias name"): imported package of 2, 3 and 4 name parts (the README's own
+	// examples are foo.bar.v1 / foo.baz.v1) x importing package of 2 and 3 parts x without / with alias x
+	// every reference position (object, array item, map item, oneof, enum with rules)
+	for _, imported := range []string{"baz.v1", "foo.baz.v1", "acme.billing.invoice.v1", "foo.v1.inner.v1"} {
+		parts := strings.Split(imported, ".")
+		short := parts[len(parts)-2]
+		impDir := strings.ReplaceAll(imported, ".", "/")
+		for _, own := range []string{"foo.v1", "foo.bar.v1"} {
+			ownDir := strings.ReplaceAll(own, ".", "/")
+			for _, form := range []string{"by package name", "alias", "alias equal to the name"} {
+				imp, pre := "import "+imported, short
+				switch form {
+				case "alias":
+					imp, pre = "import "+imported+":other", "other"
+				case "alias equal to the name":
+					imp = "import " + imported + ":" + short
+				}
+				body := fmt.Sprintf("package %s\n\n%s\n\nobject Foo {\n  field bar object:%s.Bar\n  field bars array:object:%s.Bar\n  field barMap map:object:%s.Bar\n  field choice oneof:%s.Choice\n  field k enum:%s.Kind {\n    rules.in = [\"B\"]\n  }\n  field ks array:enum:%s.Kind\n}\n", own, imp, pre, pre, pre, pre, pre, pre)
+				out = append(out, declCase{Name: fmt.Sprintf("import %s into %s %s", imported, own, form), Pkg: own, Main: ownDir + "/a.j5s", Files: map[string]string{
+					ownDir + "/a.j5s":     body,
+					impDir + "/types.j5s": "package " + imported + "\n\nobject Bar {\n  field x string\n}\n\noneof Choice {\n  option a object {\n    field y string\n  }\n}\n\nenum Kind {\n  option A\n  option B\n}\n",
+				}})
+			}
+		}
+	}
 	out = append(out, declCase{Name: "import proto file", Pkg: "foo.v1", Main: mainFile, Files: map[string]string{
 		mainFile:            "package foo.v1\n\nimport baz.v1:baz\n\nobject Foo {\n  field bar object:baz.Bar\n}\n",
 		"baz/v1/types.proto": "syntax = \"proto3\";\n\npackage baz.v1;\n\nmessage Bar {\n  string x = 1;\n}\n",
